@@ -429,7 +429,7 @@ impl FaultEngine {
                 rec.op(line.clone(), out.clone());
                 let op = line.split_whitespace().next().unwrap_or("");
                 if (op == "reload" || op == "notify") && out != "ok" {
-                    rec.oracle_fail(format!("hot-reload-stuck-after-fault `{}`: `{line}` answered {out} (the reloader thread did not answer within {WAIT_SECS} s)", f.line));
+                    rec.oracle_fail(format!("hot-reload-stuck-after-fault `{}`: `{line}` answered {out} (the reloader thread is gone, or did not answer within {WAIT_SECS} s)", f.line));
                     stuck = true;
                     break;
                 }
